@@ -135,6 +135,9 @@ func runC16(ctx *Ctx, c *c16Case) (intervals []c16Interval, ok bool) {
 		sf := filepath.Join(cdir, "sensor")
 		_ = os.WriteFile(sf, []byte("40000\n"), 0644)
 		text := fmt.Sprintf("dbPath: %s/fan2go.db\nsensors:\n  - id: s\n    file:\n      path: %s\ncurves:\n  - id: c\n    linear:\n      sensor: s\n      min: 40\n      max: 80\nfans:\n  - id: f\n    curve: c\n    file:\n      path: %s\n", cdir, sf, sf)
+		// the neighbouring initialisation settings with unusual but accepted values (a negative delay is no delay; the settle
+		// threshold is irrelevant for fans without tachometer); the harness puts its own values into force after the load
+		text += []string{"", "fanResponseDelay: -1\n", "maxRpmDiffForSettledFan: 0\n", "fanResponseDelay: 0\nmaxRpmDiffForSettledFan: -5\n", ""}[int(hashStr(jsonStr(c))/7)%5]
 		const envKey = "RUNFANINITIALIZATIONINPARALLEL"
 		_ = os.Unsetenv(envKey)
 		// every spelling strconv.ParseBool understands (viper's own conversion)
